@@ -1,5 +1,5 @@
 //! Drivers: what gets executed (DESIGN.md §4.5). A driver is an indexed family of group plans
-//! so that rayon can run it in parallel and lazily.
+//! so that rayon can run it in parallel and lazily. Everything random derives from the seed.
 
 use crate::model::Cfg;
 use rand::rngs::StdRng;
@@ -27,6 +27,7 @@ pub struct Driver {
     sets: Vec<Vec<String>>,
     /// explicit plans read from a file (driver "file:<path>", one JSON object per line)
     file_plans: Vec<serde_json::Value>,
+    n: usize,
 }
 
 /// all words over `alpha` of length <= k (including the empty word), shortest first
@@ -70,10 +71,178 @@ fn run(cfg: Cfg, input: &[String]) -> RunPlan {
     RunPlan { cfg, input: input.to_vec(), schedule: None }
 }
 
+// ------------------------------------------------------------------------------------------
+// alphabets
+// ------------------------------------------------------------------------------------------
+pub const META: &[&str] = &["(", ")", "[", "]", "{", "}", "+", "*", "-", ".", "?", "|", "^", "$", "\\"];
+pub const CLUSTERS: &[&str] = &[
+    "\u{1F1E9}\u{1F1EA}",       // regional indicator pair
+    "\u{1100}\u{1161}",         // conjoining jamo
+    "\u{1F44D}\u{1F3FB}",       // emoji + modifier
+    "e\u{301}",                 // base + combining mark
+    "\u{600}a",                 // prepend + base
+    "\u{1F469}\u{200D}\u{1F4BB}", // ZWJ sequence
+    "\r\n",
+    "\\\u{1F3FB}",              // backslash + extend
+    "\\\u{1F3FB}\u{1F3FB}",     // backslash + extend + extend
+    "\\\u{301}",                // backslash + mark
+    ".\u{1F3FB}",               // metacharacter + extend
+    "\u{D4E}\\",                // prepend + backslash
+    "\u{1F3FB}",
+    "\u{200D}",
+    "a\u{200C}",
+];
+pub const SPACES: &[&str] = &[
+    " ", "\t", "\n", "\u{b}", "\u{c}", "\r", "\u{85}", "\u{a0}", "\u{1680}", "\u{2000}", "\u{2003}",
+    "\u{200a}", "\u{2028}", "\u{2029}", "\u{202f}", "\u{205f}", "\u{3000}", "#", "\u{200b}",
+];
+pub const CASED: &[&str] = &[
+    "\u{130}", "\u{1E9E}", "\u{3C2}", "\u{3C3}", "\u{3A3}", "\u{212A}", "k", "K", "\u{2126}", "\u{3C9}",
+    "\u{212B}", "\u{E5}", "\u{13A0}", "\u{AB70}", "\u{1C90}", "\u{10D0}", "\u{1C5}", "\u{A7DC}",
+    "\u{16EA0}", "\u{131}", "I", "i", "\u{DF}", "S", "s", "\u{17F}", "\u{1F88}", "\u{390}", "\u{1FD3}",
+    "A", "a", "Z", "\u{E9}", "\u{C9}",
+];
+pub const DIGITS: &[&str] = &[
+    "0", "7", "\u{663}", "\u{969}", "\u{1D7D7}", "\u{B2}", "\u{2167}", "_", "a", "\u{E9}", " ", "\u{a0}",
+    "-", "\u{FF15}", "\u{203F}", "\u{200D}", "\u{300}", "\u{2160}", "\u{3007}", "\u{1F}", "\u{3000}",
+    "\u{16EA0}", "\u{A7DC}", "\u{E0100}",
+];
+pub const ASTRAL: &[&str] = &[
+    "\u{1F4A9}", "\u{1D49C}", "\u{10000}", "\u{10FFFF}", "\u{FFFF}", "\u{80}", "\u{7F}", "\u{7FF}", "\u{800}",
+    "\u{E9}", "\u{100}", "\u{FFF}", "\u{1000}", "\u{FFFFF}", "\u{100000}", "a", "e\u{301}", "\u{FFFD}",
+];
+pub const ESCS: &[&str] = &["\u{1b}", "[", "m", "0", "1", ";", "3", "]", "\\"];
+pub const PLAIN: &[&str] = &["a", "b", "c"];
+
+fn pick<'a>(rng: &mut StdRng, xs: &[&'a str]) -> &'a str {
+    xs[rng.gen_range(0..xs.len())]
+}
+
+/// A random set of test cases over letters drawn from `alphas`, with shapes that share
+/// prefixes / suffixes, are prefixes of each other or contain repeats.
+pub fn shaped_set(rng: &mut StdRng, letters: &[&str], max_words: usize, max_len: usize) -> Vec<String> {
+    let n = rng.gen_range(1..=max_words);
+    let mut words: Vec<Vec<&str>> = vec![];
+    for _ in 0..n {
+        let strategy = rng.gen_range(0..6);
+        let mut w: Vec<&str> = vec![];
+        match strategy {
+            0 | 1 => {
+                let len = rng.gen_range(0..=max_len);
+                for _ in 0..len {
+                    w.push(pick(rng, letters));
+                }
+            }
+            2 if !words.is_empty() => {
+                // extend an earlier word (prefix relation)
+                w = words[rng.gen_range(0..words.len())].clone();
+                for _ in 0..rng.gen_range(1..=2) {
+                    w.push(pick(rng, letters));
+                }
+            }
+            3 if !words.is_empty() => {
+                // share a suffix
+                let base = &words[rng.gen_range(0..words.len())];
+                let keep = rng.gen_range(0..=base.len());
+                for _ in 0..rng.gen_range(0..=2) {
+                    w.push(pick(rng, letters));
+                }
+                w.extend_from_slice(&base[base.len() - keep..]);
+            }
+            4 => {
+                // repeated unit
+                let ulen = rng.gen_range(1..=2);
+                let unit: Vec<&str> = (0..ulen).map(|_| pick(rng, letters)).collect();
+                let k = rng.gen_range(2..=4);
+                if rng.gen_bool(0.5) {
+                    w.push(pick(rng, letters));
+                }
+                for _ in 0..k {
+                    w.extend_from_slice(&unit);
+                }
+                if rng.gen_bool(0.5) {
+                    w.push(pick(rng, letters));
+                }
+            }
+            _ => {
+                // share a prefix, different tail
+                if let Some(base) = words.last() {
+                    let keep = rng.gen_range(0..=base.len());
+                    w.extend_from_slice(&base[..keep]);
+                }
+                for _ in 0..rng.gen_range(0..=2) {
+                    w.push(pick(rng, letters));
+                }
+            }
+        }
+        if w.len() > max_len + 2 {
+            w.truncate(max_len + 2);
+        }
+        words.push(w);
+    }
+    let mut out: Vec<String> = words.iter().map(|w| w.concat()).collect();
+    out.sort();
+    out.dedup();
+    out
+}
+
+fn letters_from(rng: &mut StdRng, pools: &[&'static [&'static str]], k: usize) -> Vec<&'static str> {
+    let mut v: Vec<&'static str> = vec![];
+    for _ in 0..k {
+        let pool = pools[rng.gen_range(0..pools.len())];
+        v.push(pick(rng, pool));
+    }
+    v.sort();
+    v.dedup();
+    v
+}
+
+/// random engine-bound settings (no colour, no surrogates)
+fn random_cfg(rng: &mut StdRng, allow_classes: bool) -> Cfg {
+    let mut bits: u32 = rng.gen::<u32>() & 0x7FFF;
+    bits &= !(1 << 14); // colour
+    bits &= !(1 << 10); // surrogates
+    if !allow_classes {
+        bits &= !0x3F;
+    }
+    let mut c = Cfg::from_bits(bits);
+    if c.rep && rng.gen_bool(0.3) {
+        c.min_rep = rng.gen_range(1..=3);
+        c.min_sub = rng.gen_range(1..=3);
+    }
+    c
+}
+
+const CLASS_FLAGS: [&str; 6] = ["digit", "nondigit", "space", "nonspace", "word", "nonword"];
+
+fn class_cfg(bits: u32) -> Cfg {
+    let mut c = Cfg::default();
+    for (i, f) in CLASS_FLAGS.iter().enumerate() {
+        if bits & (1 << i) != 0 {
+            c = c.with(f, true);
+        }
+    }
+    c
+}
+
+/// scalar value by index (skipping the surrogate block): 0 .. 1_112_064
+pub fn scalar(i: usize) -> char {
+    let cp = if i < 0xD800 { i } else { i + 0x800 };
+    char::from_u32(cp as u32).unwrap()
+}
+pub const N_SCALARS: usize = 0x110000 - 0x800;
+
 impl Driver {
     pub fn new(name: &str, tier: &str, seed: u64) -> Driver {
         let thorough = tier == "thorough";
-        let mut d = Driver { name: name.to_string(), thorough, seed, sets: vec![], file_plans: vec![] };
+        let mut d = Driver {
+            name: name.to_string(),
+            thorough,
+            seed,
+            sets: vec![],
+            file_plans: vec![],
+            n: 0,
+        };
         if let Some(path) = name.strip_prefix("file:") {
             let text = std::fs::read_to_string(path).expect("plan file");
             d.file_plans = text
@@ -82,32 +251,58 @@ impl Driver {
                 .map(|l| serde_json::from_str(l).expect("plan line"))
                 .collect();
             d.name = "file".into();
+            d.n = d.file_plans.len();
             return d;
         }
+        let q = |quick: usize, thor: usize| if thorough { thor } else { quick };
         match name {
-            "small" => {
+            // exhaustive small scope: all subsets of {a,b}^<=3 and {a,b,c}^<=2 (with the empty word)
+            "small" | "small-anchors" | "small-default" | "small-rep" => {
                 let u = words(&["a", "b"], 3);
-                d.sets = subsets(&u, if thorough { 5 } else { 3 });
+                d.sets = subsets(&u, q(3, 5));
                 let u2 = words(&["a", "b", "c"], 2);
-                d.sets.extend(subsets(&u2, if thorough { 4 } else { 2 }));
+                d.sets.extend(subsets(&u2, q(2, 4)));
+                d.n = d.sets.len();
             }
+            "adversarial" => d.n = q(1500, 30000),
+            "near-miss" => d.n = q(1500, 25000),
+            "classes" => d.n = q(1200, 20000),
+            "icase-words" => d.n = q(1500, 25000),
+            "icase-sweep" => d.n = N_SCALARS,
+            "class-sweep" => d.n = N_SCALARS,
+            "escape-sweep" => d.n = N_SCALARS,
+            "repeats" => d.n = q(1500, 25000),
+            "thresholds" => d.n = q(1200, 20000),
+            "presentation" => d.n = q(1200, 20000),
+            "anchors" => d.n = q(1500, 25000),
+            "escape-words" => d.n = q(1200, 20000),
+            "color" => d.n = q(1200, 20000),
+            "lattice" => d.n = q(600, 6000),
+            "orders" => d.n = q(1200, 15000),
+            "stages" => d.n = q(1500, 25000),
             other => panic!("unknown driver {}", other),
         }
         d
     }
 
     pub fn count(&self) -> usize {
-        if self.name == "file" {
-            return self.file_plans.len();
-        }
-        self.sets.len()
+        self.n
     }
 
     fn rng(&self, i: usize) -> StdRng {
-        StdRng::seed_from_u64(self.seed.wrapping_mul(0x9E3779B97F4A7C15).wrapping_add(i as u64))
+        StdRng::seed_from_u64(
+            self.seed
+                .wrapping_mul(0x9E3779B97F4A7C15)
+                .wrapping_add(i as u64)
+                .wrapping_add(self.name.len() as u64 * 7919),
+        )
     }
 
     pub fn plan(&self, i: usize) -> Option<GroupPlan> {
+        let mut rng = self.rng(i);
+        let base = Cfg::default();
+        let tag = self.name.clone();
+        let mk = |tcs: Vec<String>, runs: Vec<RunPlan>| Some(GroupPlan { tcs, runs, cps: false, tag: tag.clone() });
         match self.name.as_str() {
             "file" => {
                 let v = &self.file_plans[i];
@@ -123,7 +318,11 @@ impl Driver {
                         a.iter()
                             .map(|r| RunPlan {
                                 cfg: Cfg::from_json(&r["cfg"]),
-                                input: if r.get("input").is_some() { strs(&r["input"]) } else { tcs.clone() },
+                                input: if r.get("input").map(|x| x.is_array()).unwrap_or(false) {
+                                    strs(&r["input"])
+                                } else {
+                                    tcs.clone()
+                                },
                                 schedule: r.get("schedule").and_then(|s| s.as_array()).map(|a| {
                                     a.iter().map(|x| x.as_u64().unwrap_or(0) as usize).collect()
                                 }),
@@ -140,20 +339,406 @@ impl Driver {
             }
             "small" => {
                 let tcs = self.sets[i].clone();
-                let base = Cfg::default();
                 let mut runs = vec![run(base.clone(), &tcs)];
                 for f in ["rep", "icase", "verbose", "capture", "escape", "nostart", "noend"] {
                     runs.push(run(base.with(f, true), &tcs));
                 }
                 runs.push(run(base.with("nostart", true).with("noend", true), &tcs));
-                let mut rng = self.rng(i);
                 let mut shuffled = tcs.clone();
                 shuffled.shuffle(&mut rng);
                 if rng.gen_bool(0.5) {
                     shuffled.push(tcs[0].clone());
                 }
                 runs.push(run(base.clone(), &shuffled));
-                Some(GroupPlan { tcs, runs, cps: false, tag: "small".into() })
+                mk(tcs, runs)
+            }
+            "small-default" => {
+                let tcs = self.sets[i].clone();
+                let mut runs = vec![run(base.clone(), &tcs)];
+                for f in ["verbose", "capture", "escape"] {
+                    runs.push(run(base.with(f, true), &tcs));
+                }
+                runs.push(run(base.with("verbose", true).with("capture", true).with("escape", true), &tcs));
+                mk(tcs, runs)
+            }
+            "small-rep" => {
+                let tcs = self.sets[i].clone();
+                let mut runs = vec![run(base.clone(), &tcs), run(base.with("rep", true), &tcs)];
+                runs.push(run(base.with("rep", true).thresholds(2, 1), &tcs));
+                runs.push(run(base.with("rep", true).thresholds(1, 2), &tcs));
+                mk(tcs, runs)
+            }
+            "small-anchors" => {
+                let tcs = self.sets[i].clone();
+                let mut runs = vec![];
+                for ctx in [base.clone(), base.with("rep", true), base.with("verbose", true), base.with("icase", true)] {
+                    runs.push(run(ctx.clone(), &tcs));
+                    runs.push(run(ctx.with("nostart", true), &tcs));
+                    runs.push(run(ctx.with("noend", true), &tcs));
+                    runs.push(run(ctx.with("nostart", true).with("noend", true), &tcs));
+                }
+                mk(tcs, runs)
+            }
+            // C01/C07: exotic alphabets, random engine-bound settings
+            "adversarial" => {
+                let pools: [&'static [&'static str]; 7] = [META, CLUSTERS, SPACES, CASED, DIGITS, ASTRAL, PLAIN];
+                let k = rng.gen_range(2..=5);
+                let focus = rng.gen_range(0..pools.len());
+                let mut letters = letters_from(&mut rng, &[pools[focus]], k);
+                letters.extend(letters_from(&mut rng, &pools, 2));
+                let tcs = shaped_set(&mut rng, &letters, 4, 4);
+                let mut runs = vec![run(base.clone(), &tcs)];
+                for _ in 0..7 {
+                    let c = random_cfg(&mut rng, true);
+                    runs.push(run(c, &tcs));
+                }
+                mk(tcs, runs)
+            }
+            // C02: default + presentation-neutral settings on near-miss shapes
+            "near-miss" => {
+                let pools: [&'static [&'static str]; 5] = [META, CLUSTERS, SPACES, ASTRAL, PLAIN];
+                let mut letters = letters_from(&mut rng, &pools, 3);
+                letters.extend(letters_from(&mut rng, &[PLAIN], 2));
+                let tcs = shaped_set(&mut rng, &letters, 5, 5);
+                let mut runs = vec![run(base.clone(), &tcs)];
+                for f in ["verbose", "capture", "escape", "nostart", "noend"] {
+                    runs.push(run(base.with(f, true), &tcs));
+                }
+                runs.push(run(base.with("verbose", true).with("capture", true).with("escape", true), &tcs));
+                mk(tcs, runs)
+            }
+            // C03: class conversion on multi-script digits / letters / spaces
+            "classes" => {
+                let pools: [&'static [&'static str]; 4] = [DIGITS, SPACES, CASED, PLAIN];
+                let mut letters = letters_from(&mut rng, &[DIGITS], 3);
+                letters.extend(letters_from(&mut rng, &pools, 3));
+                let tcs = shaped_set(&mut rng, &letters, 3, 3);
+                let mut runs = vec![run(base.clone(), &tcs)];
+                let nsub = if self.thorough { 10 } else { 6 };
+                for _ in 0..nsub {
+                    let bits = rng.gen_range(1..64u32);
+                    let c = class_cfg(bits);
+                    runs.push(run(c.clone(), &tcs));
+                    let extra = ["rep", "icase", "verbose", "capture", "escape"][rng.gen_range(0..5)];
+                    runs.push(run(c.with(extra, true), &tcs));
+                }
+                mk(tcs, runs)
+            }
+            // C04: case-insensitive matching on special-casing letters, sets differing only by case
+            "icase-words" => {
+                let mut letters = letters_from(&mut rng, &[CASED], 4);
+                letters.extend(letters_from(&mut rng, &[PLAIN, DIGITS, META], 1));
+                let mut tcs = shaped_set(&mut rng, &letters, 3, 4);
+                // add case variants of some members
+                let mut extra: Vec<String> = vec![];
+                for t in tcs.iter() {
+                    if rng.gen_bool(0.4) {
+                        extra.push(if rng.gen_bool(0.5) { t.to_uppercase() } else { t.to_lowercase() });
+                    }
+                }
+                tcs.extend(extra);
+                tcs.sort();
+                tcs.dedup();
+                let ic = base.with("icase", true);
+                let mut runs = vec![run(base.clone(), &tcs), run(ic.clone(), &tcs)];
+                for f in ["rep", "verbose", "escape", "capture", "word"] {
+                    runs.push(run(ic.with(f, true), &tcs));
+                }
+                runs.push(run(ic.with("nostart", true).with("noend", true), &tcs));
+                mk(tcs, runs)
+            }
+            // every scalar value alone, case-insensitively
+            "icase-sweep" => {
+                let c = scalar(i);
+                let tcs = vec![c.to_string()];
+                mk(tcs.clone(), vec![run(base.with("icase", true), &tcs)])
+            }
+            // C09: every scalar value alone under the six single class flags (quick) /
+            // all 64 subsets (thorough)
+            "class-sweep" => {
+                let c = scalar(i);
+                let tcs = vec![c.to_string()];
+                let mut runs = vec![];
+                if self.thorough {
+                    for bits in 1..64u32 {
+                        runs.push(run(class_cfg(bits), &tcs));
+                    }
+                } else {
+                    for bit in 0..6 {
+                        runs.push(run(class_cfg(1 << bit), &tcs));
+                    }
+                    // a few multi-flag subsets, rotating with the code point
+                    let b = ((i as u32).wrapping_mul(2654435761) >> 7) % 63 + 1;
+                    runs.push(run(class_cfg(b), &tcs));
+                    runs.push(run(class_cfg(63), &tcs));
+                }
+                mk(tcs, runs)
+            }
+            // C11: every non-ASCII scalar alone, escaped with and without surrogates
+            "escape-sweep" => {
+                let c = scalar(i);
+                if (c as u32) < 0x7F {
+                    return None;
+                }
+                let tcs = vec![c.to_string()];
+                let e = base.with("escape", true);
+                mk(tcs.clone(), vec![run(base.clone(), &tcs), run(e.clone(), &tcs), run(e.with("surr", true), &tcs)])
+            }
+            // C05: repeats with shared prefixes and different continuations
+            "repeats" => {
+                let pools: [&'static [&'static str]; 4] = [PLAIN, DIGITS, CLUSTERS, META];
+                let mut letters = letters_from(&mut rng, &[PLAIN], 2);
+                if rng.gen_bool(0.4) {
+                    letters.extend(letters_from(&mut rng, &pools, 2));
+                }
+                let n = rng.gen_range(1..=4);
+                let mut tcs = vec![];
+                let prefix_len = rng.gen_range(0..=2);
+                let prefix: String = (0..prefix_len).map(|_| pick(&mut rng, &letters)).collect();
+                let unit_len = rng.gen_range(1..=3);
+                let unit: String = (0..unit_len).map(|_| pick(&mut rng, &letters)).collect();
+                for _ in 0..n {
+                    let k = rng.gen_range(1..=5);
+                    let mut w = prefix.clone();
+                    if rng.gen_bool(0.2) {
+                        // nested period
+                        let inner = unit.repeat(2) + pick(&mut rng, &letters);
+                        w += &inner.repeat(k.min(3));
+                    } else {
+                        w += &unit.repeat(k);
+                    }
+                    for _ in 0..rng.gen_range(0..=2) {
+                        w += pick(&mut rng, &letters);
+                    }
+                    tcs.push(w);
+                }
+                if rng.gen_bool(0.3) {
+                    tcs.extend(shaped_set(&mut rng, &letters, 2, 4));
+                }
+                tcs.sort();
+                tcs.dedup();
+                let mut runs = vec![];
+                let ctxs = [
+                    base.clone(),
+                    base.with("digit", true),
+                    base.with("word", true),
+                    base.with("icase", true),
+                    base.with("escape", true),
+                    base.with("verbose", true),
+                    base.with("capture", true),
+                ];
+                let ctx = if rng.gen_bool(0.5) { base.clone() } else { ctxs[rng.gen_range(0..ctxs.len())].clone() };
+                runs.push(run(ctx.clone(), &tcs));
+                runs.push(run(ctx.with("rep", true), &tcs));
+                for _ in 0..4 {
+                    let (mr, ms) = (rng.gen_range(1..=4), rng.gen_range(1..=4));
+                    runs.push(run(ctx.with("rep", true).thresholds(mr, ms), &tcs));
+                }
+                if rng.gen_bool(0.1) {
+                    runs.push(run(ctx.with("rep", true).thresholds(u32::MAX, 1), &tcs));
+                    runs.push(run(ctx.with("rep", true).thresholds(1, u32::MAX), &tcs));
+                }
+                mk(tcs, runs)
+            }
+            // C13: unary, periodic and nested repeats under a grid of thresholds
+            "thresholds" => {
+                let letters = letters_from(&mut rng, &[PLAIN, DIGITS], 3);
+                let mut tcs = vec![];
+                for _ in 0..rng.gen_range(1..=3) {
+                    let mut w = String::new();
+                    for _ in 0..rng.gen_range(1..=3) {
+                        let ulen = rng.gen_range(1..=3);
+                        let unit: String = (0..ulen).map(|_| pick(&mut rng, &letters)).collect();
+                        let k = rng.gen_range(1..=7);
+                        if rng.gen_bool(0.2) {
+                            let inner = unit.repeat(rng.gen_range(2..=3)) + pick(&mut rng, &letters);
+                            w += &inner.repeat(rng.gen_range(2..=3));
+                        } else {
+                            w += &unit.repeat(k);
+                        }
+                    }
+                    tcs.push(w);
+                }
+                tcs.sort();
+                tcs.dedup();
+                let ctx = match rng.gen_range(0..5) {
+                    0 => base.with("digit", true),
+                    1 => base.with("verbose", true),
+                    2 => base.with("capture", true),
+                    3 => base.with("escape", true),
+                    _ => base.clone(),
+                };
+                let mut runs = vec![run(ctx.clone(), &tcs)];
+                let grid: Vec<(u32, u32)> = if self.thorough {
+                    (1..=6).flat_map(|a| (1..=6).map(move |b| (a, b))).collect()
+                } else {
+                    let mut g = vec![(1, 1)];
+                    for _ in 0..7 {
+                        g.push((rng.gen_range(1..=6), rng.gen_range(1..=6)));
+                    }
+                    g
+                };
+                for (mr, ms) in grid {
+                    runs.push(run(ctx.with("rep", true).thresholds(mr, ms), &tcs));
+                }
+                mk(tcs, runs)
+            }
+            // C06: all 8 subsets of {verbose, capture, escape} in several contexts
+            "presentation" => {
+                let pools: [&'static [&'static str]; 5] = [SPACES, SPACES, ASTRAL, CLUSTERS, META];
+                let mut letters = letters_from(&mut rng, &pools, 4);
+                letters.extend(letters_from(&mut rng, &[PLAIN], 2));
+                let tcs = shaped_set(&mut rng, &letters, 4, 4);
+                let ctx = match rng.gen_range(0..7) {
+                    0 => base.with("rep", true),
+                    1 => base.with("icase", true),
+                    2 => base.with("word", true),
+                    3 => base.with("nostart", true).with("noend", true),
+                    4 => base.with("space", true),
+                    5 => base.with("nonspace", true),
+                    _ => base.clone(),
+                };
+                let mut runs = vec![];
+                for bits in [0u32, 1, 2, 4, 3, 5, 6, 7] {
+                    let mut c = ctx.clone();
+                    c.verbose = bits & 1 != 0;
+                    c.capture = bits & 2 != 0;
+                    c.escape = bits & 4 != 0;
+                    runs.push(run(c, &tcs));
+                }
+                mk(tcs, runs)
+            }
+            // C08: prefix-related sets (also grapheme-cluster / class / repetition variants)
+            "anchors" => {
+                let pools: [&'static [&'static str]; 4] = [PLAIN, CLUSTERS, DIGITS, CASED];
+                let mut letters = letters_from(&mut rng, &[PLAIN], 2);
+                if rng.gen_bool(0.5) {
+                    letters.extend(letters_from(&mut rng, &pools, 2));
+                }
+                let tcs = shaped_set(&mut rng, &letters, 5, 4);
+                let ctxs = [
+                    base.clone(),
+                    base.with("verbose", true),
+                    base.with("icase", true),
+                    base.with("word", true),
+                    base.with("digit", true),
+                    base.with("rep", true),
+                    base.with("capture", true),
+                    base.with("escape", true),
+                    base.with("rep", true).with("digit", true),
+                ];
+                let mut runs = vec![];
+                let k = rng.gen_range(0..ctxs.len());
+                for ctx in [ctxs[0].clone(), ctxs[k].clone()] {
+                    runs.push(run(ctx.clone(), &tcs));
+                    runs.push(run(ctx.with("nostart", true), &tcs));
+                    runs.push(run(ctx.with("noend", true), &tcs));
+                    runs.push(run(ctx.with("nostart", true).with("noend", true), &tcs));
+                    if k == 0 {
+                        break;
+                    }
+                }
+                mk(tcs, runs)
+            }
+            // C11: words over BMP / astral boundary code points, combining sequences, repeats
+            "escape-words" => {
+                let mut letters = letters_from(&mut rng, &[ASTRAL], 4);
+                letters.extend(letters_from(&mut rng, &[CLUSTERS, PLAIN, SPACES], 2));
+                let mut tcs = shaped_set(&mut rng, &letters, 3, 4);
+                if rng.gen_bool(0.5) {
+                    let u = pick(&mut rng, ASTRAL);
+                    tcs.push(u.repeat(rng.gen_range(2..=4)));
+                    tcs.sort();
+                    tcs.dedup();
+                }
+                let ctx = match rng.gen_range(0..6) {
+                    0 => base.with("rep", true),
+                    1 => base.with("verbose", true),
+                    2 => base.with("nondigit", true),
+                    3 => base.with("icase", true),
+                    4 => base.with("rep", true).with("capture", true),
+                    _ => base.clone(),
+                };
+                let e = ctx.with("escape", true);
+                mk(tcs.clone(), vec![run(ctx.clone(), &tcs), run(e.clone(), &tcs), run(e.with("surr", true), &tcs)])
+            }
+            // C15: colour on/off twins; literal text resembling SGR sequences
+            "color" => {
+                let pools: [&'static [&'static str]; 5] = [ESCS, ESCS, PLAIN, META, DIGITS];
+                let letters = letters_from(&mut rng, &pools, 5);
+                let tcs = shaped_set(&mut rng, &letters, 4, 5);
+                let mut runs = vec![];
+                for _ in 0..4 {
+                    let mut c = random_cfg(&mut rng, true);
+                    if rng.gen_bool(0.2) {
+                        c.escape = true;
+                        c.surr = true;
+                    }
+                    runs.push(run(c.clone(), &tcs));
+                    runs.push(run(c.with("color", true), &tcs));
+                }
+                Some(GroupPlan { tcs, runs, cps: true, tag })
+            }
+            // C07: the full lattice of 2^15 settings (incl. surrogates and colour) x thresholds
+            "lattice" => {
+                let pools: [&'static [&'static str]; 7] = [META, CLUSTERS, SPACES, CASED, DIGITS, ASTRAL, PLAIN];
+                let letters = letters_from(&mut rng, &pools, 5);
+                let tcs = shaped_set(&mut rng, &letters, 4, 4);
+                let mut runs = vec![];
+                let per = if self.thorough { 96 } else { 56 };
+                // a rotating window of the lattice: group i covers settings [i*per, (i+1)*per) mod 2^15
+                // so that the whole lattice is covered every 2^15/per groups
+                for k in 0..per {
+                    let bits = ((i * per + k) as u32).wrapping_mul(40503) & 0x7FFF;
+                    let mut c = Cfg::from_bits(bits);
+                    if c.rep {
+                        let t = [1u32, 2, 3, 7, u32::MAX];
+                        c.min_rep = t[rng.gen_range(0..t.len())];
+                        c.min_sub = t[rng.gen_range(0..t.len())];
+                    }
+                    runs.push(run(c, &tcs));
+                }
+                mk(tcs, runs)
+            }
+            // C10: list order, duplicates, representative schedules
+            "orders" => {
+                let pools: [&'static [&'static str]; 4] = [PLAIN, DIGITS, CASED, CLUSTERS];
+                let mut letters = letters_from(&mut rng, &[PLAIN], 3);
+                letters.extend(letters_from(&mut rng, &pools, 2));
+                let tcs = shaped_set(&mut rng, &letters, 6, 3);
+                let mut runs = vec![];
+                for _ in 0..2 {
+                    let c = random_cfg(&mut rng, true);
+                    runs.push(run(c.clone(), &tcs));
+                    for _ in 0..3 {
+                        let mut l = tcs.clone();
+                        l.shuffle(&mut rng);
+                        for _ in 0..rng.gen_range(0..=2) {
+                            let d = l[rng.gen_range(0..l.len())].clone();
+                            let pos = rng.gen_range(0..=l.len());
+                            l.insert(pos, d);
+                        }
+                        let schedule: Vec<usize> = (0..8).map(|_| rng.gen_range(0..8)).collect();
+                        runs.push(RunPlan { cfg: c.clone(), input: l, schedule: Some(schedule) });
+                    }
+                }
+                mk(tcs, runs)
+            }
+            // C16: stage invariants on mixed inputs with and without repetition / class conversion
+            "stages" => {
+                let pools: [&'static [&'static str]; 6] = [PLAIN, PLAIN, DIGITS, CLUSTERS, META, CASED];
+                let letters = letters_from(&mut rng, &pools, 4);
+                let tcs = shaped_set(&mut rng, &letters, 6, 4);
+                let cls = class_cfg(rng.gen_range(1..64));
+                let runs = vec![
+                    run(base.clone(), &tcs),
+                    run(base.with("rep", true), &tcs),
+                    run(cls.clone(), &tcs),
+                    run(cls.with("rep", true), &tcs),
+                    run(base.with("icase", true), &tcs),
+                    run(base.with("nostart", true).with("noend", true), &tcs),
+                ];
+                mk(tcs, runs)
             }
             _ => None,
         }
